@@ -7,6 +7,10 @@ import (
 	"crypto/sha1"
 	"encoding/json"
 	"fmt"
+	"github.com/gebn/bmc"
+	"github.com/gebn/bmc/pkg/dcmi"
+	"github.com/gebn/bmc/pkg/iana"
+	"github.com/gebn/bmc/pkg/ipmi"
 	"hash"
 	"strings"
 	"time"
@@ -70,6 +74,13 @@ func c05Decode(l decLayer, in []byte) (key, msg string) {
 			if r.p == "" && r.err == nil {
 				r.p = guard(func() { r.snap = l.Snap(lay) })
 			}
+			if r.p == "" && r.err == nil {
+				// rendering a decoded value (error messages, logs) runs the String
+				// methods of its fields; fmt reports a panic in one of them in-band
+				if out := fmt.Sprintf("%v %+v", lay, lay); strings.Contains(out, "PANIC=") {
+					r.p = "panic in a String method while formatting the decoded value: " + out[strings.Index(out, "PANIC="):min(len(out), strings.Index(out, "PANIC=")+160)]
+				}
+			}
 			done <- r
 		}()
 		select {
@@ -111,6 +122,57 @@ func c05Decode(l decLayer, in []byte) (key, msg string) {
 // whose decryption ends in that pad-length byte preceded by the pad the
 // validator expects at every position it can read - including positions that
 // fall into the IV - so inputs that pass the pad check exist whenever possible.
+// c05Stringers: the String methods of the named wire types, by value.
+func c05Stringers() map[string]func(int) string {
+	return map[string]func(int) string{
+		"ipmi.OutputType":                func(v int) string { return ipmi.OutputType(v).String() },
+		"ipmi.Channel":                   func(v int) string { return ipmi.Channel(v).String() },
+		"ipmi.Linearisation":             func(v int) string { return ipmi.Linearisation(v).String() },
+		"ipmi.EntityInstance":            func(v int) string { return ipmi.EntityInstance(v).String() },
+		"ipmi.CipherSuiteID":             func(v int) string { return ipmi.CipherSuiteID(v).String() },
+		"ipmi.ConfidentialityAlgorithm":  func(v int) string { return ipmi.ConfidentialityAlgorithm(v).String() },
+		"ipmi.StringEncoding":            func(v int) string { return ipmi.StringEncoding(v).String() },
+		"ipmi.StatusCode":                func(v int) string { return ipmi.StatusCode(v).String() },
+		"ipmi.EntityID":                  func(v int) string { return ipmi.EntityID(v).String() },
+		"ipmi.Address":                   func(v int) string { return ipmi.Address(v).String() },
+		"ipmi.RecordType":                func(v int) string { return ipmi.RecordType(v).String() },
+		"ipmi.PayloadType":               func(v int) string { return ipmi.PayloadType(v).String() },
+		"ipmi.PowerRestorePolicy":        func(v int) string { return ipmi.PowerRestorePolicy(v).String() },
+		"ipmi.ChassisIdentifyState":      func(v int) string { return ipmi.ChassisIdentifyState(v).String() },
+		"ipmi.AuthenticationType":        func(v int) string { return ipmi.AuthenticationType(v).String() },
+		"ipmi.ChassisControl":            func(v int) string { return ipmi.ChassisControl(v).String() },
+		"ipmi.SensorType":                func(v int) string { return ipmi.SensorType(v).String() },
+		"ipmi.LUN":                       func(v int) string { return ipmi.LUN(v).String() },
+		"ipmi.SensorUnit":                func(v int) string { return ipmi.SensorUnit(v).String() },
+		"ipmi.BodyCode":                  func(v int) string { return ipmi.BodyCode(v).String() },
+		"ipmi.SlaveAddress":              func(v int) string { return ipmi.SlaveAddress(v).String() },
+		"ipmi.PrivilegeLevel":            func(v int) string { return ipmi.PrivilegeLevel(v).String() },
+		"ipmi.NetworkFunction":           func(v int) string { return ipmi.NetworkFunction(v).String() },
+		"ipmi.CommandNumber":             func(v int) string { return ipmi.CommandNumber(v).String() },
+		"ipmi.SoftwareID":                func(v int) string { return ipmi.SoftwareID(v).String() },
+		"ipmi.AnalogDataFormat":          func(v int) string { return ipmi.AnalogDataFormat(v).String() },
+		"ipmi.CompletionCode":            func(v int) string { return ipmi.CompletionCode(v).String() },
+		"ipmi.IntegrityAlgorithm":        func(v int) string { return ipmi.IntegrityAlgorithm(v).String() },
+		"ipmi.SensorDirection":           func(v int) string { return ipmi.SensorDirection(v).String() },
+		"ipmi.RateUnit":                  func(v int) string { return ipmi.RateUnit(v).String() },
+		"ipmi.AuthenticationAlgorithm":   func(v int) string { return ipmi.AuthenticationAlgorithm(v).String() },
+		"dcmi.SystemPowerStatisticsMode": func(v int) string { return dcmi.SystemPowerStatisticsMode(v).String() },
+		"dcmi.CapabilitiesParameter":     func(v int) string { return dcmi.CapabilitiesParameter(v).String() },
+		"ipmi.Operation": func(v int) string {
+			return ipmi.Operation{Function: ipmi.NetworkFunction(v >> 2), Command: ipmi.CommandNumber(v), Body: ipmi.BodyCode(v)}.String()
+		},
+		"ipmi.PayloadDescriptor": func(v int) string {
+			return ipmi.PayloadDescriptor{PayloadType: ipmi.PayloadType(v & 0x3f), PayloadID: uint16(v)}.String()
+		},
+		"ipmi.CipherSuite": func(v int) string {
+			return ipmi.CipherSuite{AuthenticationAlgorithm: ipmi.AuthenticationAlgorithm(v & 0x3f), IntegrityAlgorithm: ipmi.IntegrityAlgorithm(v >> 2), ConfidentialityAlgorithm: ipmi.ConfidentialityAlgorithm(v >> 4)}.String()
+		},
+		"bmc.FirmwareVersion": func(v int) string {
+			return bmc.FirmwareVersion(&ipmi.GetDeviceIDRsp{Manufacturer: []iana.Enterprise{iana.EnterpriseIntel, iana.EnterpriseDell, iana.EnterpriseQuanta, iana.EnterpriseSuperMicro, 0}[v%5], MajorFirmwareRevision: uint8(v), MinorFirmwareRevision: uint8(v), AuxiliaryFirmwareRevision: [4]byte{byte(v), byte(v >> 1), byte(v), 0xFF}})
+		},
+	}
+}
+
 func aesCrafted() [][]byte {
 	var out [][]byte
 	c, _ := aes.NewCipher(aesKey[:])
@@ -294,6 +356,25 @@ func runC05(r *rep.R) {
 				for rem := 0; rem <= 20; rem++ {
 					do(l, cat([]byte{0, 0, 0, 0, 1, 0, 0, 0}, pattern(16, 1, 1), []byte{0x14, 0, 0, byte(ul)}, pattern(rem, 0x41, 1)))
 				}
+			}
+		}
+	}
+	// every value of every named wire type through its String method (used in
+	// error texts and metric labels)
+	for name, f := range c05Stringers() {
+		for v := 0; v < 256; v++ {
+			idx++
+			if !r.Mine(idx) {
+				continue
+			}
+			var out string
+			p := guard(func() { out = f(v) })
+			r.Eval(rep.H("stringer", name, v), true)
+			if p != "" || strings.Contains(out, "PANIC=") {
+				r.Outcome("violation")
+				r.Violate("C05/stringer/"+name+"/panic", fmt.Sprintf("%s(%#02x).String(): %s %s", name, v, p, out), "c05stringer", map[string]any{"type": name, "value": v}, nil)
+			} else {
+				r.Outcome("stringer:renders")
 			}
 		}
 	}
